@@ -64,3 +64,35 @@ package tls
 //@   loop 0 invariant -1 <= $rangeindex
 //@   loop 1 invariant -1 <= $rangeindex
 //@   loop 2 invariant -1 <= $rangeindex
+
+// (*UConn).buildHandshakeState (u_conn.go): which steps a successful build performs (control flow only; C20: every
+// BuildHandshakeState re-marshals and, when sessions are loaded, re-synchronises the session extensions, patches the
+// binders into the freshly marshalled hello and runs the controller's final check -- in this order).
+// The uTLS branch (ClientHelloID != HelloGolang) is identified by its first statement, the second uAssert call.
+//@ func (*UConn).buildHandshakeState
+//@   property C20 C19 C01
+//@   unchecked safety pre
+//@   note unchecked: thin contract (control flow only); panic-freedom and callee preconditions are listed assumptions
+//@   let fresh0 = uconn.clientHelloBuildStatus == NotBuilt
+//@   requires uconn != nil
+//@   ensures preset: ret == nil && called(uAssert, 1) && old(fresh0) ==> called(applyPresetByID, 0)
+//@   ensures configured: ret == nil && called(uAssert, 1) ==> called(ApplyConfig, 0)
+//@   ensures loaded: ret == nil && called(uAssert, 1) && loadSession ==> called(uLoadSession, 0) && callres(uLoadSession, 0) == nil
+//@   ensures marshalled: ret == nil && called(uAssert, 1) ==> called(MarshalClientHello, 0) && callres(MarshalClientHello, 0) == nil
+//@   ensures patched: ret == nil && called(uAssert, 1) && loadSession ==> called(uApplyPatch, 0) && called(finalCheck, 0)
+//@   ensures notloaded: !loadSession ==> !called(uLoadSession, 0) && !called(uApplyPatch, 0)
+//@   at before call MarshalClientHello#0: assert after_session: loadSession ==> called(uLoadSession, 0)
+//@   at before call uApplyPatch#0: assert after_marshal: called(MarshalClientHello, 0) && callres(MarshalClientHello, 0) == nil
+//@   at before call finalCheck#0: assert after_patch: called(uApplyPatch, 0)
+
+// (*UConn).applyPresetByID: a successful call has (re-)applied the connection's spec -- ApplyPreset is what syncs the
+// session extensions set through SetSessionTicketExtension / SetPskExtension into uconn.Extensions (C20) -- except
+// for HelloCustom without a spec, where there is nothing to apply.
+//@ func (*UConn).applyPresetByID
+//@   property C20 C03
+//@   unchecked safety pre
+//@   note unchecked: thin contract (control flow only)
+//@   requires uconn != nil
+//@   ensures applied: ret == nil && !(old(uconn.clientHelloSpec == nil) && id.Client == helloCustom) ==> called(ApplyPreset, 0) && callres(ApplyPreset, 0) == nil
+//@   ensures applied_spec: called(ApplyPreset, 0) ==> callarg(ApplyPreset, 0, 1) != nil
+//@   ensures custom: old(uconn.clientHelloSpec == nil) && id.Client == helloCustom ==> ret == nil && !called(ApplyPreset, 0)
